@@ -869,6 +869,7 @@ func (e *fnEnc) index(c *blockCtx, in *ssa.Index) {
 func (e *fnEnc) byteRange(ch Term) Term { return and(le(intLit(0), ch), le(ch, intLit(255))) }
 
 func (e *fnEnc) load(c *blockCtx, in *ssa.UnOp) {
+	e.guardedAccess(c, in, in.X, false)
 	pt := ptrElem(in.X.Type())
 	if lv, ok := e.lvals[in.X]; ok {
 		v := e.loadLV(c.st, lv)
@@ -900,6 +901,7 @@ func (e *fnEnc) defineLoaded(c *blockCtx, v ssa.Value, t Term, typ types.Type) {
 }
 
 func (e *fnEnc) store(c *blockCtx, in *ssa.Store) {
+	e.guardedAccess(c, in, in.Addr, true)
 	v := e.val(in.Val)
 	if lv, ok := e.lvals[in.Addr]; ok {
 		e.storeLVm(c.st, lv, v)
@@ -1189,6 +1191,7 @@ func (e *fnEnc) mapSorts(t types.Type) (k, v Sort, mt *types.Map) {
 }
 
 func (e *fnEnc) mapUpdate(c *blockCtx, in *ssa.MapUpdate) {
+	e.guardedAccess(c, in, in.Map, true)
 	m := e.val(in.Map)
 	ks, vs, _ := e.mapSorts(in.Map.Type())
 	dc, ds, vc, vsrt := e.mapComps(ks, vs)
@@ -1203,6 +1206,7 @@ func (e *fnEnc) mapUpdate(c *blockCtx, in *ssa.MapUpdate) {
 }
 
 func (e *fnEnc) lookup(c *blockCtx, in *ssa.Lookup) {
+	e.guardedAccess(c, in, in.X, false)
 	x := e.val(in.X)
 	if _, isMap := types.Unalias(in.X.Type()).Underlying().(*types.Map); !isMap {
 		// string index s[i]
